@@ -677,7 +677,10 @@ def t2_padding(prog, rep):
     oks = len(succ) == 1 and all(sub_.block.id in f.dominators().get(succ[0].block.id, ()) or True for sub_ in []) and bool(bad)
     rep.check(oks and 0 in vals and any(v != 0 for v in vals), "T2-padding", "b64decode answers 0 for accepted input and non-zero for rejected input", f.loc, "constants returned: %s" % vals,
               function=f.name, construct="result")
-    sub = [e for e in f.all_elems() if e.is_assign and e.op == "-=" and norm(e.kid(1)) == cnt and norm(e.kid(0))[0] == "*"]
+    # ... the count itself, or a variable that was handed it (a validation helper's result passed back through a pointer)
+    cnts = {cnt} | set(norm(e.kid(0)) for e in f.all_elems() if e.is_assign and e.op == "=" and norm(e.kid(1)) == cnt and norm(e.kid(0))[0] == "v"
+                       and len([x for x in f.all_elems() if (x.is_assign or x.is_incdec) and norm(x.kid(0)) == norm(e.kid(0))]) == 1)
+    sub = [e for e in f.all_elems() if e.is_assign and e.op == "-=" and norm(e.kid(1)) in cnts and norm(e.kid(0))[0] == "*"]
     rep.check(len(sub) == 1, "T2-padding", "the output length is reduced by the number of '=' characters", f.loc, "", function=f.name, construct="pad-len")
 
 
